@@ -8,7 +8,7 @@
 From Coq Require Import ZArith List Bool Arith Lia.
 From Coq Require Import Strings.Byte.
 From Coq Require Import FunctionalExtensionality.
-From HP Require Import Bytes Utf8 Sha1 Wire Params ParamsOK Broker PyBroker BrokerGen.
+From HP Require Import Bytes Utf8 Sha1 Wire WireFacts Params ParamsOK Broker PyBroker BrokerGen.
 Import ListNotations.
 Open Scope Z_scope.
 
@@ -460,3 +460,90 @@ Qed.
 
 Lemma Connection_deadline_expired_eq : forall q s, Connection_deadline_expired q s = BOk false (bad q s).
 Proof. intros q s. unfold Connection_deadline_expired; unf. reflexivity. Qed.
+
+(* ---- no translated handler lets a ProtocolException escape (only the Unpacker raises one, inside process_pending) --- *)
+Definition np {A} (r : bres A) : Prop := match r with BProto _ => False | _ => True end.
+Lemma np_emb : forall r, np (emb r).
+Proof. intros [s|s|s]; exact I. Qed.
+
+Lemma on_auth_np : forall store async_store pp q i dg s, np (Connection_on_auth store async_store pp q i dg s).
+Proof.
+  intros store async_store pp q i dg s. unfold Connection_on_auth, fn, bindB at 1, with_server.
+  destruct (copen (conns s q)); [|exact I].
+  unfold ifB, bindB at 1, pureB. destruct async_store.
+  - unf. exact I.
+  - unfold seqB, bindB, call_stmt, bindB, fall, retB. rewrite Connection_authenticate_eq.
+    destruct (authenticate (pp q) q i dg (store i) s); exact I.
+Qed.
+
+Lemma call_ret_np : forall (m : BM bool) s, np (m s) -> np (call_ret m s).
+Proof. intros m s H. unfold call_ret, bindB, retB. destruct (m s); try exact I. exact H. Qed.
+Lemma fn_np : forall (m : BM ctl) s, np (m s) -> np (fn m s).
+Proof. intros m s H. unfold fn, bindB, retB. destruct (m s); try exact I. exact H. Qed.
+
+Lemma base_mr_np : forall store async_store pp q op body s,
+  np (BaseProtocol_message_received store async_store pp q op body s).
+Proof.
+  intros store async_store pp q op body s. unfold BaseProtocol_message_received. apply fn_np.
+  unfold ifB, bindB, pureB.
+  destruct (op =? op_error); [exact I|]. destruct (op =? op_info); [exact I|].
+  destruct (op =? op_auth).
+  { destruct (readauth body) as [[i dg]|]; [|exact I]. apply call_ret_np, on_auth_np. }
+  destruct (op =? op_publish).
+  { destruct (readpublish body) as [[[i c] d]|]; [|exact I]. apply call_ret_np. rewrite Connection_on_publish_eq. apply np_emb. }
+  destruct (op =? op_subscribe).
+  { destruct (readsubscribe body) as [[i c]|]; [|exact I]. apply call_ret_np. rewrite Connection_on_subscribe_eq. apply np_emb. }
+  destruct (op =? op_unsubscribe).
+  { destruct (readunsubscribe body) as [[i c]|]; [|exact I]. apply call_ret_np. rewrite Connection_on_unsubscribe_eq. apply np_emb. }
+  unf. exact I.
+Qed.
+
+Lemma conn_mr_np : forall store async_store pp q op body s,
+  np (Connection_message_received store async_store pp q op body s).
+Proof.
+  intros. rewrite Connection_message_received_eq.
+  destruct (opt_none (ak (conns s q)) && negb (op =? op_auth)); [exact I|apply base_mr_np].
+Qed.
+
+(* ---- BaseProtocol.process_pending (one turn of the frame loop) and data_received ------------------------ *)
+Section Loop.
+Variable store : ident -> lookup.
+Variable async_store : bool.
+
+(* one unrolling of the model's pp, with the rest of the loop (and the nested call) as k *)
+Definition pp_step (k : state -> res) (q : nat) (s : state) : res :=
+  match next limitP (buf (conns s q)) with
+  | NeedMore => Ok s
+  | Bad _ => Ok (cl q s)
+  | Ready op body rest =>
+      match handle store async_store k q op body (modc q (set_buf rest) s) with
+      | (Ok s2, true) => Ok s2
+      | (Ok s2, false) => k s2
+      | (r, _) => r
+      end
+  end.
+
+Lemma BaseProtocol_process_pending_eq : forall ppk q s,
+  to_res (BaseProtocol_process_pending store async_store ppk q s) = pp_step (ppk q) q s.
+Proof.
+  intros ppk q s. unfold BaseProtocol_process_pending, pp_step.
+  unfold fn, bindB at 1, seqB at 1, bindB at 1, try_proto, for_unpacker_until.
+  destruct (next limitP (buf (conns s q))) as [| c |op body rest] eqn:N.
+  - reflexivity.
+  - unf. reflexivity.
+  - pose proof (WireFacts.next_ready_inv limitP _ _ _ _ N) as [_ [Hop _]].
+    rewrite <- (handle_src_eq store async_store ppk q op body _ Hop).
+    pose proof (conn_mr_np store async_store ppk q op body (modc q (set_buf rest) s)) as NP.
+    destruct (Connection_message_received store async_store ppk q op body (modc q (set_buf rest) s)) as [[|] s2|s2|s2|s2];
+      cbn [to_resb]; try reflexivity; [|destruct NP].
+    unfold of_res. destruct (ppk q s2); reflexivity.
+Qed.
+
+Lemma Connection_data_received_eq : forall ppk q chunk s,
+  to_res (Connection_data_received ppk q chunk s) = ppk q (modc q (set_buf (buf (conns s q) ++ chunk)) s).
+Proof.
+  intros ppk q chunk s. unfold Connection_data_received, BaseProtocol_data_received.
+  unfold fn, call_ret, bindB, seqB, bindB, eff, of_res, p_feed, fall, retB.
+  destruct (ppk q (modc q (set_buf (buf (conns s q) ++ chunk)) s)); reflexivity.
+Qed.
+End Loop.
